@@ -528,7 +528,31 @@ func runC02(args []string) int {
 	gv := newDocGen(r, 0)
 	gb := newDocGen(r, 0.3)
 	for len(items) < n {
-		switch r.Intn(10) {
+		switch r.Intn(11) {
+		case 10:
+			// YAML in YAML whose lines are (partly) separated by line breaks pint does not count (lone CR, NEL, LS, PS): yaml
+			// sees more lines than pint, inside the embedded document and above it
+			list := seqLines(gm.ruleItems(1+r.Intn(3), false), 0)
+			txt := gm.embed(gm.wrapOpts(list, r.Intn(2), false).Text).Text
+			br := pick(r, []string{"\r", "\r", "\u0085", "\u2028", "\u2029"})
+			if r.Intn(2) == 0 {
+				txt = strings.ReplaceAll(txt, "\n", br)
+			} else {
+				parts := strings.Split(txt, "\n")
+				var b strings.Builder
+				for k, p := range parts {
+					b.WriteString(p)
+					if k+1 < len(parts) {
+						if r.Intn(3) == 0 {
+							b.WriteString(br)
+						} else {
+							b.WriteString("\n")
+						}
+					}
+				}
+				txt = b.String()
+			}
+			items = append(items, item{txt, "embedded-foreign-breaks"})
 		case 8, 9:
 			// valid alerting rules whose keys are fully permuted (annotations / labels / for written above expr ...) with
 			// expressions and templates chosen to trigger the offline checks (alerts/template humanize, missing labels,
